@@ -21,6 +21,10 @@ use vmon::{assets, jumbf, par, report, signers, Rng, Run};
 enum Binding {
     Data { exclusions: Vec<(u64, u64)> },
     Bmff { exclusions: Vec<BmffExcl>, merkle: bool },
+    /// box hash (only the box named C2PA is excluded) and update manifests over a data-hash parent
+    /// (the parent's single exclusion covers exactly the manifest container): everything outside the
+    /// manifest container located by the independent parser `vmon::fmt` is protected.
+    Complement { why: &'static str },
 }
 
 #[derive(Clone, Debug)]
@@ -43,6 +47,8 @@ fn cbor_u64(v: &ciborium::Value) -> Option<u64> {
 
 /// Extracts the hard binding of the *active* (last) manifest of the store.
 fn binding_of(store: &[u8]) -> Option<Binding> {
+    let expanded = jumbf::expand_brob(store, 8 << 20);
+    let store = expanded.as_deref().unwrap_or(store);
     let root = jumbf::parse_store(store)?;
     let active = *jumbf::manifests(&root).last()?;
     let mut all = Vec::new();
@@ -65,6 +71,24 @@ fn binding_of(store: &[u8]) -> Option<Binding> {
                 }
             }
             return Some(Binding::Data { exclusions: ex });
+        }
+        if label.starts_with("c2pa.hash.boxes") {
+            // declared exclusions of a box hash: the entry named C2PA (hash-less) and entries flagged `excluded`
+            let boxes = cbor_get(&v, "boxes").and_then(|a| a.as_array())?;
+            let mut c2pa_entries = 0;
+            for bx in boxes {
+                let names: Vec<&str> = cbor_get(bx, "names").and_then(|n| n.as_array()).map(|n| n.iter().filter_map(|x| x.as_text()).collect()).unwrap_or_default();
+                let excluded = cbor_get(bx, "excluded").and_then(|e| e.as_bool()).unwrap_or(false);
+                if names.contains(&"C2PA") {
+                    c2pa_entries += 1;
+                } else if excluded {
+                    return None; // other declared exclusions: not resolved by this oracle -> subject unusable
+                }
+            }
+            if c2pa_entries != 1 {
+                return None;
+            }
+            return Some(Binding::Complement { why: "box" });
         }
         if label.starts_with("c2pa.hash.bmff") {
             let mut ex = Vec::new();
@@ -128,8 +152,24 @@ fn bmff_top(data: &[u8]) -> (Vec<(usize, usize, usize, [u8; 4])>, usize) {
 
 /// Protected content per the declared binding, or None when it is undefined for this file (e.g. an
 /// exclusion reaches past the end): then acceptance itself is the violation.
-fn protected(b: &Binding, f: &[u8]) -> Option<Vec<u8>> {
+fn protected(b: &Binding, format: &str, f: &[u8], orig_container: &[(usize, usize)], orig_len: usize) -> Option<Vec<u8>> {
     match b {
+        Binding::Complement { .. } => {
+            let ranges: Vec<(usize, usize)> = match vmon::fmt::parse(format, f) {
+                Ok(p) if !p.containers.is_empty() => p.containers.iter().flat_map(|c| c.ranges.clone()).collect(),
+                // the independent parser rejects the mutant (or finds no container): a same-length mutant keeps
+                // the original container extents; otherwise the protected content is undefined
+                _ if f.len() == orig_len => orig_container.to_vec(),
+                _ => return None,
+            };
+            let mut inc = vec![true; f.len()];
+            for (s, l) in ranges {
+                for p in s..(s + l).min(f.len()) {
+                    inc[p] = false;
+                }
+            }
+            Some(f.iter().zip(inc.iter()).filter(|(_, i)| **i).map(|(b, _)| *b).collect())
+        }
         Binding::Data { exclusions } => {
             let mut inc = vec![true; f.len()];
             for (s, l) in exclusions {
@@ -260,6 +300,7 @@ struct Subject {
     base: report::Outcome,
     prot: Vec<u8>,
     tiny: bool,
+    container: Vec<(usize, usize)>,
 }
 
 fn settings(extra: &Value) -> String {
@@ -305,6 +346,22 @@ fn region_class(s: &Subject, m: &Mutant) -> String {
                 "protected".into()
             }
         }
+        Binding::Complement { .. } => {
+            for (st, l) in &s.container {
+                if m.pos >= *st && m.pos < st + l {
+                    return if m.pos < st + 12 || m.pos + 6 >= st + l { "container-edge".into() } else { "container".into() };
+                }
+                if (m.pos + 2 >= *st && m.pos < *st) || (m.pos >= st + l && m.pos < st + l + 2) {
+                    return "protected-edge".into();
+                }
+            }
+            if let Ok(p) = vmon::fmt::parse(s.format, &s.signed) {
+                if let Some(e) = p.elems.iter().find(|e| m.pos >= e.start && m.pos < e.end()) {
+                    return format!("elem:{}", e.kind.chars().take(12).collect::<String>());
+                }
+            }
+            if m.pos >= s.signed.len() { "eof".into() } else { "protected".into() }
+        }
         Binding::Bmff { .. } => {
             let (boxes, _) = bmff_top(&s.signed);
             for (off, hdr, len, typ) in boxes {
@@ -339,17 +396,26 @@ fn judge(s: &Subject, m: &Mutant) -> Res {
         panic = o.error.clone();
     }
     if o.accepted() {
-        let p2 = protected(&s.binding, &f2);
+        let p2 = protected(&s.binding, s.format, &f2, &s.container, s.signed.len());
         let prot_same = p2.as_ref() == Some(&s.prot);
         let rep_same = o.report == s.base.report;
+        // cause class for signatures: where the first changed byte sits (never the raw offset / edit kind)
+        let first = s.signed.iter().zip(f2.iter()).position(|(a, b)| a != b).unwrap_or(s.signed.len().min(f2.len()));
+        let cause = if first >= s.signed.len() {
+            "appended-after-end".to_string()
+        } else if f2.len() != s.signed.len() && vmon::fmt::parse(s.format, &s.signed).map(|p| p.elems.iter().any(|e| e.start == first)).unwrap_or(false) {
+            "length-change-at-element-boundary".to_string()
+        } else {
+            format!("at:{}", region_class(s, &Mutant { kind: m.kind, pos: first, arg: 0 }))
+        };
         if !prot_same {
             violation = Some((
-                format!("{}|{}|{}|{}|protected-content-changed", s.format, s.kind, m.kind, region),
+                format!("{}|{}|{}|protected-content-changed", s.format, s.kind, cause),
                 format!("{}: mutant {:?} accepted as {} although bytes outside the declared exclusions differ", s.name, m, o.state),
             ));
         } else if !rep_same {
             violation = Some((
-                format!("{}|{}|{}|{}|report-changed", s.format, s.kind, m.kind, region),
+                format!("{}|{}|{}|report-changed", s.format, s.kind, cause),
                 format!("{}: mutant {:?} accepted as {} with a different manifest report", s.name, m, o.state),
             ));
         }
@@ -358,25 +424,63 @@ fn judge(s: &Subject, m: &Mutant) -> Res {
     Res { class: format!("{}|{}|{}|{}|{}", s.format, s.kind, m.kind, region, outcome), state: o.state, violation, panic }
 }
 
-fn make_subject(name: &str, format: &'static str, bytes: &[u8], kind: &'static str, extra: Value, tiny: bool) -> Result<Subject, String> {
+fn sign_once(format: &str, bytes: &[u8], intent: BuilderIntent, extra: &Value, title: &str) -> Result<(Vec<u8>, Vec<u8>), String> {
     let signer = signers::test_signer("ed25519");
-    let ctx = Context::new().with_settings(settings(&extra).as_str()).map_err(|e| e.to_string())?;
+    let ctx = Context::new().with_settings(settings(extra).as_str()).map_err(|e| e.to_string())?;
     let mut b = Builder::from_context(ctx)
-        .with_definition(json!({"title": "c01", "assertions": [{"label": "org.verif.note", "data": {"marker": "C01-PLANTED"}}]}))
+        .with_definition(json!({"title": title, "assertions": [{"label": "org.verif.note", "data": {"marker": "C01-PLANTED"}}]}))
         .map_err(|e| e.to_string())?;
-    b.set_intent(BuilderIntent::Edit);
+    b.set_intent(intent);
     let mut src = Cursor::new(bytes.to_vec());
     let mut dst = Cursor::new(Vec::new());
     let store = report::catch_sdk(|| b.sign(signer.as_ref(), format, &mut src, &mut dst))?.map_err(|e| format!("sign: {e}"))?;
-    let signed = dst.into_inner();
-    let binding = binding_of(&store).ok_or("no hard binding found by the independent walker")?;
+    Ok((dst.into_inner(), store))
+}
+
+fn make_subject(name: &str, format: &'static str, bytes: &[u8], kind: &'static str, extra: Value, tiny: bool) -> Result<Subject, String> {
+    let (signed, binding) = if kind == "update" {
+        // step 1: ordinary signed asset (data hash); step 2: update manifest on top of it
+        let (first, store1) = sign_once(format, bytes, BuilderIntent::Edit, &extra, "c01-base")?;
+        let b1 = binding_of(&store1).ok_or("no hard binding in the base manifest")?;
+        let single_range = matches!(&b1, Binding::Data { exclusions } if exclusions.len() == 1);
+        let ctx = Context::new().with_settings(settings(&extra).as_str()).map_err(|e| e.to_string())?;
+        let signer = signers::test_signer("ed25519");
+        let mut b = Builder::from_context(ctx).with_definition(json!({"title": "c01-update"})).map_err(|e| e.to_string())?;
+        b.set_intent(BuilderIntent::Update);
+        let mut src = Cursor::new(first.clone());
+        let mut dst = Cursor::new(Vec::new());
+        let store2 = report::catch_sdk(|| b.sign(signer.as_ref(), format, &mut src, &mut dst))?.map_err(|e| format!("sign update: {e}"))?;
+        if binding_of(&store2).is_some() {
+            return Err("update manifest unexpectedly carries a hard binding".into());
+        }
+        if !single_range {
+            return Err("base manifest's binding is not a single data-hash exclusion: complement oracle not applicable".into());
+        }
+        (dst.into_inner(), Binding::Complement { why: "update" })
+    } else {
+        let (signed, store) = sign_once(format, bytes, BuilderIntent::Edit, &extra, "c01")?;
+        let binding = binding_of(&store).ok_or("no hard binding found by the independent walker")?;
+        match (&binding, kind) {
+            (Binding::Complement { .. }, "box") | (Binding::Data { .. }, "data") | (Binding::Bmff { .. }, "bmff") | (Binding::Bmff { .. }, "bmff-merkle") => {}
+            _ => return Err(format!("requested binding kind {kind} but the SDK wrote {:?}", binding).chars().take(200).collect()),
+        }
+        (signed, binding)
+    };
+    let mut container = Vec::new();
+    if let Binding::Complement { .. } = &binding {
+        let p = vmon::fmt::parse(format, &signed).map_err(|e| format!("independent parser rejects the signed file: {e}"))?;
+        container = p.containers.iter().flat_map(|c| c.ranges.clone()).collect();
+        if container.is_empty() {
+            return Err("independent parser finds no manifest container".into());
+        }
+    }
     let ctx = Context::new().with_settings(settings(&json!({})).as_str()).map_err(|e| e.to_string())?;
     let base = report::read_bytes_catch(ctx, format, &signed);
     if !base.accepted() {
-        return Err(format!("baseline read not accepted: {:?} {:?}", base.state, base.error));
+        return Err(format!("baseline read not accepted: {:?} {:?} {:?}", base.state, base.error, base.failure_codes()));
     }
-    let prot = protected(&binding, &signed).ok_or("protected content undefined on the signed file")?;
-    Ok(Subject { name: name.to_string(), format, kind, signed, binding, base, prot, tiny })
+    let prot = protected(&binding, format, &signed, &container, signed.len()).ok_or("protected content undefined on the signed file")?;
+    Ok(Subject { name: name.to_string(), format, kind, signed, binding, base, prot, tiny, container })
 }
 
 fn mutants_for(s: &Subject, rng: &mut Rng, quick: bool) -> Vec<Mutant> {
@@ -475,6 +579,13 @@ fn main() {
         specs.push((a.name.clone(), a.format, a.bytes.clone(), if bmff { "bmff" } else { "data" }, json!({}), true));
         if bmff {
             specs.push((format!("{}+merkle", a.name), a.format, a.bytes.clone(), "bmff-merkle", json!({"core": {"merkle_tree_chunk_size_in_kb": 1}}), true));
+        }
+        if matches!(a.format, "jpg" | "png" | "gif") {
+            // compressed manifests cannot be pre-sized, so the SDK binds them with a box hash
+            specs.push((format!("{}+boxhash", a.name), a.format, a.bytes.clone(), "box", json!({"core": {"prefer_compress_manifests": true}}), true));
+        }
+        if matches!(a.format, "jpg" | "png" | "gif" | "wav" | "tif" | "mp3") && !a.name.contains("xmp") {
+            specs.push((format!("{}+update", a.name), a.format, a.bytes.clone(), "update", json!({}), true));
         }
     }
     let fx_max = if quick { 70_000 } else { 400_000 };
